@@ -50,9 +50,35 @@ COMPONENTS_STUB = ["socket", "os.urandom", "clock",
 ASSUMPTIONS = ["single deviation per run"]
 
 
-def plan(tier, base_seed):
-    n = {"quick": 2500, "thorough": 400000}[tier]
+def grid_jobs(base_seed):
+    """Every single deviation (op x index x inserted message) of a fixed set
+    of scenarios x both victim roles; the deviation is passed as preset
+    choice streams."""
+    from checks import c17
     jobs = []
+    for si in range(len(c17.SCENARIOS)):
+        for victim in (0, 1):
+            for idx in range(8):
+                for op in (0, 1, 2):
+                    jobs.append({"seed": base_seed * 1000003 + si, "fam":
+                                 "dev", "grid": si, "preset": {
+                                     "cfg.victim": [victim], "d.op": [op],
+                                     "d.idx": [idx]}})
+                for op, nex in ((3, len(EXTRAS)), (4, len(EXTRAS)), (5, 5)):
+                    for e in range(nex):
+                        if EXTRAS[e] == "copy" and op != 5:
+                            continue
+                        jobs.append({"seed": base_seed * 1000003 + si,
+                                     "fam": "dev", "grid": si, "preset": {
+                                         "cfg.victim": [victim],
+                                         "d.op": [op], "d.idx": [idx],
+                                         "d.extra": [e]}})
+    return jobs
+
+
+def plan(tier, base_seed):
+    n = {"quick": 1500, "thorough": 400000}[tier]
+    jobs = grid_jobs(base_seed)
     for i in range(n):
         fam = "reneg" if i % 10 == 9 else "dev"
         jobs.append({"seed": base_seed * 1000003 + i, "fam": fam})
@@ -131,9 +157,16 @@ def run(job, streams=None):
     from tlslite.errors import (TLSLocalAlert, TLSRemoteAlert,
                                 TLSAbruptCloseError)
     seed = job["seed"]
+    if streams is None and job.get("preset") is not None:
+        streams = job["preset"]
     ch = kernel.Chooser(seed=seed) if streams is None else \
         kernel.Chooser(streams=streams)
-    sc = scen.draw_flavour(ch)
+    if job.get("grid") is not None:
+        from checks import c17
+        sc = c17.full_scenario(job["grid"])
+        sc.pop("sni", None)
+    else:
+        sc = scen.draw_flavour(ch)
     if ch.draw(6, "cfg.npn") == 1 and tuple(sc["version"]) < (3, 4):
         sc["npn_c"] = ["h2", "http/1.1"]
         sc["npn_s"] = ["http/1.1"]
@@ -237,7 +270,9 @@ def run(job, streams=None):
            if extra_t is not None else None}
     ctxfull[0] = ctx + " deviation=%s honest_seq=%s]" % (
         json.dumps(dev), [G.name(t) for t in seq])
-    legal = G.legal(op, ver, pname, seq, i, extra_t)
+    legal = G.legal(op, ver, pname, seq, i, extra_t,
+                    kex="srp" if sc.get("flavour") in ("srp", "srp_cert")
+                    else None)
     # the message whose receipt completes the victim's handshake
     fins = [k for k, t in enumerate(seq) if t == G.FINISHED]
     comp = fins[-1] if fins else len(seq)
@@ -287,6 +322,7 @@ def run(job, streams=None):
 
     sim, pair, peer, vic, ip, mt = build(seed, sc, ch, victim, [rule])
     rt = taps.RecvTap(vic.conn)
+    vst = taps.SendTap(vic.conn)
     oc, os_, st = pair.handshake()
     vo = oc if victim == "c" else os_
     po = os_ if victim == "c" else oc
@@ -320,7 +356,9 @@ def run(job, streams=None):
                       "delivering data")
                 elif rd and rd[-1].kind == "exc":
                     probes["illegal_rejected"] = 1
-                    if not isinstance(rd[-1].exc, TLSLocalAlert):
+                    if not isinstance(rd[-1].exc, (
+                            TLSLocalAlert, TLSRemoteAlert,
+                            TLSAbruptCloseError, OSError)):
                         from sim.trace import where
                         v("abort_without_alert", "%s|%s" % (
                             type(rd[-1].exc).__name__, where(rd[-1].exc)),
@@ -355,6 +393,61 @@ def run(job, streams=None):
                 v("abort_without_alert", "%s|%s" % (type(e).__name__,
                                                    where(e)),
                   "victim failed with %r instead of a fatal alert" % (e,))
+        # ---- abort point: after reading the first message that is out of
+        # place the victim may send an alert, nothing else
+        if legal is False and op in ("insert", "replace", "swap", "dup"):
+            emitted = [G.CCS if d[0] == 20 else (G.APPDATA if d[0] == 23
+                                                 else d[1])
+                       for d in ip.sent if d[0] in (20, 22, 23)]
+            # first emitted message that is out of place; optional messages
+            # of the honest flight (CertificateRequest) may simply be absent
+            hon = list(seq)
+            j = 0
+            while j < len(emitted) and j < len(hon):
+                if emitted[j] == hon[j]:
+                    j += 1
+                elif hon[j] == G.CERT_REQ and j + 1 < len(hon) and \
+                        emitted[j] == hon[j + 1]:
+                    del hon[j]
+                else:
+                    break
+            if op == "dup":
+                j = i + 1
+            # the victim's received items, each with the stamp of the record
+            # that carried its first byte
+            items = []
+            buf = b""
+            bstamp = None
+            for (typ, data), stp in zip(rt.accepted, rt.stamps):
+                if typ == 20:
+                    items.append(stp)
+                elif typ == 23 and data:
+                    items.append(stp)
+                elif typ == 22:
+                    if not buf:
+                        bstamp = stp
+                    buf += data
+                    while len(buf) >= 4:
+                        ln = int.from_bytes(buf[1:4], "big")
+                        if len(buf) < 4 + ln:
+                            break
+                        items.append(bstamp)
+                        buf = buf[4 + ln:]
+                        bstamp = stp
+            if j < len(emitted) and j < len(items):
+                t_j = items[j]
+                later = [r for r in vst.records
+                         if r[5] > t_j and r[0] in (20, 22)]
+                if later:
+                    v("continued_after_illegal_message",
+                      "%s|%s|%s|%s" % (op, G.name(seq[i]),
+                                       G.name(extra_t) if extra_t is not None
+                                       else "-", "tls13" if ver == (3, 4)
+                                       else "legacy"),
+                      "after reading a message that is not permitted at "
+                      "that point the victim went on and sent %d more "
+                      "handshake/CCS record(s) instead of aborting" %
+                      len(later))
         early = [a for a in rt.accepted if a[0] == 23 and a[1]]
         if legal is False and delivered and not completed:
             v("data_before_completion", op, "victim delivered application "
